@@ -231,6 +231,11 @@ def gen_op(rng, cfg, S):
         mds = None
         if kind != "D" and rng.random() < 0.5:
             mds = {n: (rand_md(rng) or {}) for n in ns}
+            if rng.random() < 0.2:
+                # a metadata map that does not cover every listed node (first, middle or last; the empty map included):
+                # the batch is refused and must leave no trace, whichever node is the uncovered one
+                for n in rng.sample(ns, rng.randint(1, len(ns))):
+                    del mds[n]
         return name, {"ns": ns, "mds": mds}
     if name == "add_edge":
         key = rand_key(rng, cfg, S)
